@@ -116,3 +116,86 @@ class PrefixTrait(Contract):
 
     def covers(self, cx, ov, info):
         return [("resolves", lambda k, p, s: k == "return" and not isinstance(p, VNone))]
+
+
+# ------------------------------------------------------------------------------------------------------------------
+# the table __prefix_trait__ scans: sorted longest prefix first WHEN THE CLASS IS FINISHED
+# ------------------------------------------------------------------------------------------------------------------
+@register
+class PrefixTableSortedLast(Contract):
+    """'else the wildcard trait with the longest matching prefix': HasTraits.__prefix_trait__ (contract above) returns the trait
+    of the FIRST matching entry of prefix_traits['*'], which is the longest match only if that list is sorted by decreasing
+    length.  The list is filled in several places of update_traits_class_dict (own wildcards, every base class's list, the ""
+    catch-all) and, for add_class_trait, in _add_class_trait.  Ordering lemma, decided on the AST of the real functions on every
+    run: in each of the two functions the LAST modification of the list, at the function's top level (or, for
+    _add_class_trait, in the same block as the append), is `.sort(key=len, reverse=True)` -- nothing is added afterwards, and the
+    list stored under '*' is that very list object.  (list.sort(key=len, reverse=True) orders by decreasing length: A-BUILTIN.)"""
+    lang = "data"
+    path = "traits/has_traits.py"
+    qualname = "<prefix table ordering in update_traits_class_dict / _add_class_trait>"
+    properties = ("C13",)
+    assumptions = ("A-BUILTIN: list.sort(key=len, reverse=True) sorts by decreasing length", "syntactic analysis of the two functions' ASTs")
+
+    def data_obligations(self, ov):
+        import ast
+        import hashlib
+        from vc.pyvc import source
+        from vc.solve import Obligation
+        src, tree, funcs, classes = source.index_module(self.path)
+        obs = []
+        name0 = "%s[%s]" % (self.cid, ov)
+
+        def ob(clause, ok, detail):
+            obs.append(Obligation("%s/lemma:%s" % (name0, clause), [], z3.BoolVal(bool(ok)), kind="lemma", props=self.properties, witness={"detail": detail},
+                                  concretise=lambda m: dict(harness="hastraits", family="prefix_order")))
+
+        def mutations(fn, var):
+            """(line, kind, node, parents) of every statement that changes the list bound to `var`"""
+            out = []
+            parents = {}
+            for p in ast.walk(fn):
+                for c in ast.iter_child_nodes(p):
+                    parents[c] = p
+            for n in ast.walk(fn):
+                if isinstance(n, ast.Call) and isinstance(n.func, ast.Attribute) and isinstance(n.func.value, ast.Name) and n.func.value.id == var \
+                        and n.func.attr in ("append", "extend", "insert", "sort", "remove", "pop", "clear", "reverse"):
+                    out.append((n.lineno, n.func.attr, n, parents))
+                if isinstance(n, ast.AugAssign) and isinstance(n.target, ast.Name) and n.target.id == var:
+                    out.append((n.lineno, "augassign", n, parents))
+            return sorted(out, key=lambda t: t[0])
+
+        def is_sort_desc(call):
+            kw = {k.arg: ast.unparse(k.value) for k in call.keywords}
+            return call.func.attr == "sort" and not call.args and kw == {"key": "len", "reverse": "True"}
+        # update_traits_class_dict
+        fn = funcs.get("update_traits_class_dict")
+        if fn is None:
+            ob("update_traits_class_dict-found", False, "function missing")
+        else:
+            muts = mutations(fn, "prefix_list")
+            last = muts[-1] if muts else None
+            ok_last = last is not None and is_sort_desc(last[2])
+            ob("update_traits_class_dict:the-last-modification-of-the-prefix-list-is-the-descending-length-sort", ok_last,
+               "modifications in order: %s" % [(m[0], m[1]) for m in muts])
+            if last is not None:
+                stmt = last[3].get(last[2])
+                top = stmt is not None and isinstance(stmt, ast.Expr) and last[3].get(stmt) is fn
+                ob("update_traits_class_dict:that-sort-runs-unconditionally-at-the-end-of-the-merge", top, "the sort statement is a top-level statement of the function: %s" % top)
+            binds = [n for n in ast.walk(fn) if isinstance(n, ast.Assign) and any(ast.unparse(t) == "prefix_traits['*']" for t in n.targets)]
+            ob("update_traits_class_dict:the-list-published-under-'*'-is-the-list-that-is-sorted",
+               len(binds) == 1 and ast.unparse(binds[0].value) == "prefix_list", "bindings of prefix_traits['*']: %s" % [ast.unparse(b) for b in binds])
+            rebinds = [n for n in ast.walk(fn) if isinstance(n, ast.Assign) and any(isinstance(t, ast.Name) and t.id == "prefix_list" for t in n.targets)]
+            ob("update_traits_class_dict:the-list-is-created-once", len(rebinds) == 1, "assignments to prefix_list: %s" % [ast.unparse(r) for r in rebinds])
+        # _add_class_trait
+        fn2 = funcs.get("_add_class_trait") or funcs.get("MetaHasTraits._add_class_trait") or next((f for q, f in funcs.items() if q.endswith("_add_class_trait")), None)
+        if fn2 is None:
+            ob("_add_class_trait-found", False, "function missing")
+        else:
+            muts = mutations(fn2, "prefix_list")
+            ok = bool(muts) and is_sort_desc(muts[-1][2]) and all(m[1] in ("append", "sort") for m in muts)
+            same_block = bool(muts) and len({id(m[3].get(m[3].get(m[2]))) for m in muts}) == 1
+            ob("_add_class_trait:a-prefix-added-later-is-followed-by-the-same-sort-in-the-same-block", ok and same_block,
+               "modifications in order: %s" % [(m[0], m[1]) for m in muts])
+        sha = hashlib.sha256(src.encode()).hexdigest()
+        cx = type("DataCx", (), dict(axioms=[], hints=[], notes=[], distinct_consts_axiom=lambda self: []))()
+        return cx, obs, dict(sha=sha, paths=1, lines=(1, None))
